@@ -441,6 +441,9 @@ class Exec:
             return self.load(st, fr, parse_place(s[5:]))
         if s.startswith('const '):
             return self.const(s[6:], st)
+        if re.fullmatch(r'[A-Za-z_][\w:<>, ]*', s) and not re.fullmatch(r'_\d+', s):
+            # a function item used as a value (e.g. `Result::map(x, backdate)`)
+            return Opaque('item:' + s)
         raise EngineError('operand? ' + s)
 
     # ------------------------------------------------------------------ floats
